@@ -10,7 +10,6 @@ import Cx.Model.Pike
                    answer is the slot array of the first accepting path with slots 0/1 overwritten by the span
                    (that is what regexp does: `cap[0]`,`cap[1]` are the thread's start and the match offset).
   (2) `pikeCaps` : `nfa/pikevm.go` `PikeVM.SearchWithSlotTableCapturesAt`, transliterated:
-                     → `matchesEmptyAt`                         (at == len(haystack): NO slots are built)
                      → `searchWithSlotTableCapturesAnchored`    (nfa.IsAnchored())
                      → `searchWithSlotTableCapturesUnanchored`  (otherwise)
                    with `addSearchThread` / `addSearchThreadToNext` (explicit stack, RestoreCapture frames, the
@@ -18,8 +17,8 @@ import Cx.Model.Pike
                    of `CaptureCount*2` ints per NFA state) that are swapped after each byte, `bestSlots`, and
                    `buildCapturesFromSlots`.
   What is kept exactly as the code has it:
-   * `at == len(haystack)`: the answer is `buildCapturesFromSlots(nil, at, at)`: group 0 = (at,at), every other group
-     unset — whatever the automaton does on the empty match (this includes the empty haystack);
+   * `at == len(haystack)` (this includes the empty haystack) is NOT special-cased (since 729c212): the ordinary
+     loops seed the closure of the start state at `at` and take the end-of-input branch at once;
    * group 0 of the answer is (thread start, match offset), never slots 0/1; group i ≥ 1 is reported only when BOTH
      its slots are ≥ 0 (`buildCapturesFromSlots`), otherwise it is (-1,-1);
    * slots live in per-STATE rows: a closure copies `currSlots` into the row of each thread state it appends to the
@@ -32,7 +31,7 @@ import Cx.Model.Pike
      (after the swap it reads a stale row); the closure after a rune step runs at `pos+width` but is queued at `pos+1`;
    * sparse states follow EVERY transition containing the byte; `isBetterMatch`; break on the first match state in
      leftmost-first mode; `hasLeftmostCandidate` early exit; end-of-input loop takes the first match state.
-  Not modelled: `skipAhead` (nil unless `SetSkipAhead`), the dead `len(haystack)==0` branch, and the guard
+  Not modelled: `skipAhead` (nil unless `SetSkipAhead`) and the guard
   `activeSlots > 2` around every slot operation: with `CaptureCount ≤ 1` the code does not track slots at all, which
   is unobservable because `buildCapturesFromSlots` then reads no slot (its loop starts at group 1).
   `nslots` is `CaptureCount*2` (the code indexes `captures[0]` unconditionally, so it panics for `nslots = 0`;
@@ -112,7 +111,7 @@ def btCapsAnchored (N : NFA) (h : Bytes) (at_ nslots : Nat) : Option Slots :=
 
 /-! ### (2) the Pike VM with slot tables -/
 
-open Cx.Pike (Thread Vis clearVis anchored isMatchState closureFuel isBetter hasLeftmost matchesEmptyAt)
+open Cx.Pike (Thread Vis clearVis anchored isMatchState closureFuel isBetter hasLeftmost)
 
 /-- `captureFrame`: explore a state, or (`state == InvalidState`) restore one slot of `currSlots` -/
 inductive Frame where
@@ -313,7 +312,6 @@ def searchCapsAnchored (N : NFA) (h : Bytes) (at_ nslots : Nat) (longest : Bool)
 /-- `SearchWithSlotTableCapturesAt(haystack, at)` with `Longest = longest` -/
 def pikeCapsL (N : NFA) (h : Bytes) (at_ nslots : Nat) (longest : Bool) : Option Slots :=
   if at_ > h.size then none
-  else if at_ = h.size then (if matchesEmptyAt N h at_ then some (buildCaps nslots none at_ at_) else none)
   else if anchored N then searchCapsAnchored N h at_ nslots longest
   else searchCapsUnanchored N h at_ nslots longest
 
